@@ -395,6 +395,8 @@ class NUTS(Sampler):
             # written in a stable way to avoid overflow when computing
             # exp(diff_Ham) for large values of diff_Ham
             alpha_prime = 1 if diff_Ham > 0 else np.exp(diff_Ham)
+            if np.isnan(alpha_prime): # non-finite energy error: count as rejected
+                alpha_prime = 0
             n_alpha_prime = 1
             #
             point_minus, point_plus = point_prime, point_prime
